@@ -319,8 +319,9 @@ class Engine:
         cands = self.by_method.get(meth, [])
         if not cands:
             return None
-        # exact free function
-        c = [r for r in cands if r['file'] is None and (r['name'] == p or r['name'].endswith('::' + p) or p.endswith('::' + r['name']))]
+        # exact free function (never for a path into std / core / alloc: `std::fmt::format` is not the crate's `format`)
+        foreign = re.match(r'^(std|core|alloc)::', p) is not None
+        c = [] if foreign else [r for r in cands if r['file'] is None and (r['name'] == p or r['name'].endswith('::' + p) or p.endswith('::' + r['name']))]
         if len(c) == 1:
             return c[0]['name']
         if len(segs) >= 2:
